@@ -88,17 +88,18 @@ type CmdDef struct {
 
 // Def is a whole program definition.
 type Def struct {
-	Root         CmdDef   `json:"root"`
-	Mode         int      `json:"mode"`    // 0 normal, 1 bundling, 2 singleDash
-	Unknown      int      `json:"unknown"` // 0 fail, 1 warn, 2 pass
-	RequireOrder bool     `json:"require_order,omitempty"`
-	LateMode     bool     `json:"late_mode,omitempty"`    // SetMode is called after all options and commands have been declared
-	EarlyHelp    bool     `json:"early_help,omitempty"`   // Help() is rendered (and discarded) after every declaration step
-	LateEnv      bool     `json:"late_env,omitempty"`     // the environment variables are set after getoptions.New() and before the options are declared
-	MapLower     bool     `json:"map_lower,omitempty"`    // SetMapKeysToLower()
-	WriterFails  bool     `json:"writer_fails,omitempty"` // every Write on getoptions.Writer reports an error (closed stderr); what was attempted is still recorded
-	Help         string   `json:"help,omitempty"`         // name of the help command/option, "" = none
-	HelpAliases  []string `json:"help_aliases,omitempty"`
+	Root            CmdDef   `json:"root"`
+	Mode            int      `json:"mode"`    // 0 normal, 1 bundling, 2 singleDash
+	Unknown         int      `json:"unknown"` // 0 fail, 1 warn, 2 pass
+	RequireOrder    bool     `json:"require_order,omitempty"`
+	LateMode        bool     `json:"late_mode,omitempty"`         // SetMode is called after all options and commands have been declared
+	EarlyHelp       bool     `json:"early_help,omitempty"`        // Help() is rendered (and discarded) after every declaration step
+	LateEnv         bool     `json:"late_env,omitempty"`          // the environment variables are set after getoptions.New() and before the options are declared
+	MapLower        bool     `json:"map_lower,omitempty"`         // SetMapKeysToLower()
+	WriterFails     bool     `json:"writer_fails,omitempty"`      // every Write on getoptions.Writer reports an error (closed stderr); what was attempted is still recorded
+	CompWriterFails bool     `json:"comp_writer_fails,omitempty"` // the stream the completion candidates are written to fails (the shell end of the pipe is gone)
+	Help            string   `json:"help,omitempty"`              // name of the help command/option, "" = none
+	HelpAliases     []string `json:"help_aliases,omitempty"`
 }
 
 var modeNames = []string{"normal", "bundling", "singleDash"}
@@ -293,6 +294,9 @@ func Build(def *Def, env map[string]string) *Prog {
 		getoptions.Writer = failingWriter{p.W}
 	}
 	getoptions.VerifSetCompletionWriter(p.Comp)
+	if def.CompWriterFails {
+		getoptions.VerifSetCompletionWriter(failingWriter{p.Comp})
+	}
 	getoptions.VerifSetExit(func(code int) { p.Exits = append(p.Exits, code) })
 	p.ctx = context.WithValue(context.Background(), ctxKey{}, p)
 	opt := getoptions.New()
